@@ -58,6 +58,10 @@ def rvq_cases(ctx, rng, scale, cases, meta, failures, dist):
             kw['num_quantizers'] = nq
         if learnable:
             kw.update(learnable_codebook=True, ema_update=False)
+        stoch = (ci % 10 == 7) and not implicit
+        if stoch:
+            # stochastic sampling configured, switched OFF for this call by the per-call temperature 0: every layer must be greedy again
+            kw.update(stochastic_sample_codes=True, sample_codebook_temp=0.7)
         if implicit:
             kw['mlp_kwargs'] = dict(dim_hidden=4, depth=1)
         try:
@@ -105,6 +109,9 @@ def rvq_cases(ctx, rng, scale, cases, meta, failures, dist):
             kwargs['mask'] = m
         if mode == 'frozen':
             kwargs['freeze_codebook'] = True
+        if stoch:
+            kwargs['sample_codebook_temp'] = 0.0
+            dist['rvq_stochastic_temp0'] = dist.get('rvq_stochastic_temp0', 0) + 1
         rvq.train(mode != 'eval')
         cbs0 = [vqrec.cb_state(layer._codebook)['embed'][0] for layer in rvq.layers]
         with torch.no_grad():
